@@ -199,10 +199,9 @@ class FilReader(Filterbank):
             data = np.frombuffer(read_buffer, dtype=self.bitsinfo.dtype)
 
         self._file.seek(start * self.samp_stride)
-        nreads, lastread = divmod(nsamps, (gulp - skipback))
-        if lastread < skipback:
-            nreads -= 1
-            lastread = nsamps - (nreads * (gulp - skipback))
+        # Full blocks advance by (gulp - skipback) and must end within the range
+        nreads = (nsamps - skipback) // (gulp - skipback)
+        lastread = nsamps - (nreads * (gulp - skipback))
         blocks = [
             (ii, gulp * self.header.nchans, -skipback * self.header.nchans)
             for ii in range(nreads)
